@@ -64,6 +64,21 @@ PROPS["C19"] = {
     "design_ref": "DESIGN.md 7 (C19), 6.2",
 }
 
+PROPS["C07"] = {
+    "engines": {"tbl": {"quick": 400, "thorough": 4000}, "hm": {"quick": 150, "thorough": 1500}},
+    "rule": "table op sequences through the host API on a real VM table (insert/get/contains/remove/append/pop/nth/len/iter; 10-250 ops) with integer, finite non-zero real, string (equal text in distinct objects), nil keys, "
+            "small integer keys around the length (so that append has to skip used keys), the zero-hash integer; values incl. nested tables; non-trivial = at least 3 ops. The hm engine is re-run because the table's hash part is the C12 map. "
+            "Script-level operation sequences on aliased tables are exercised by the vm engine (C01/C06) — the aliasing sentence of the property is decided there.",
+    "trusted_base": ["key identity of the hash part ('equal hash and ==') is structural equality of the deep key for nil/int/non-NaN non-zero real/string/acyclic-table keys: proved as C19.veq_iff_eq; NaN, signed zero and function-valued keys are excluded by the property",
+                     "tables whose *keys* are tables that are mutated after insertion are outside the model (stored hash vs current content)"],
+    "assumptions": ["append's key search is modelled with the same bounded loop; minimality is proved under 2*len+1 < 2^63"],
+    "partial": "aliasing (shared reference semantics) is definitional in the heap model and sampled by the vm engine; not a theorem of this file",
+    "technique": "Lean 4 refinement proof (hash part + ordered key list refines an insertion-ordered association list for all op sequences) on top of the C12 map theorems + differential correspondence",
+    "level_text": "Proved in Lean for every operation sequence and allocation decision: the code-shaped model of CaoLangTable (CaoHashMap hash part + Vec of keys) keeps keys and hash part in sync (TInv), never panics, and returns exactly what an insertion-ordered association list returns for insert/get/contains/remove/append/pop/nth/len/iter with iteration order compared exactly (tbl_refines); append uses the least unused integer key >= len (append_key_min, pigeonhole bound on the search loop), pop removes the most recent entry and makes its key absent (pop_spec), nth/iter enumerate each entry once in insertion order (nth_iter_order). Tied to cao_lang_table.rs by the tbl engine on a real VM.",
+    "level_note": "Trusted: Lean kernel; model vs cao_lang_table.rs as far as the sampled differential run shows; key identity = structural equality of the deep key (C19); unsafe code not verified for memory safety.",
+    "design_ref": "DESIGN.md 7 (C07)",
+}
+
 # properties not claimed yet (kept current; moved into PROPS as their checks land)
 NOT_YET = {
     "C01": "check under construction in this session (see DESIGN.md section 9 for the order of work); not yet claimed",
